@@ -88,6 +88,11 @@ pub enum WindowMode {
     Short(usize),
     /// declared size plus `n` bytes: a larger scratch must serve as well (MAX clause)
     Slack(usize),
+    /// like Exact / Generous, but the call is made twice in a row on the same window (C12 inventory ops
+    /// only): what the first call leaves in the scratch, in the destination and in prepared objects must
+    /// not matter to the second
+    ExactTwice,
+    GenerousTwice,
 }
 
 #[derive(Clone, Debug)]
@@ -105,6 +110,8 @@ impl Window {
             WindowMode::Generous => ("generous", 0),
             WindowMode::Short(k) => ("short", *k),
             WindowMode::Slack(k) => ("slack", *k),
+            WindowMode::ExactTwice => ("exact_twice", 0),
+            WindowMode::GenerousTwice => ("generous_twice", 0),
         };
         json!({"mode": m, "arg": a, "fill_seed": self.fill_seed})
     }
@@ -116,6 +123,8 @@ impl Window {
                 "exact_misaligned" => WindowMode::ExactMisaligned(a),
                 "generous" => WindowMode::Generous,
                 "slack" => WindowMode::Slack(a),
+                "exact_twice" => WindowMode::ExactTwice,
+                "generous_twice" => WindowMode::GenerousTwice,
                 _ => WindowMode::Short(a),
             },
             fill_seed: v["fill_seed"].as_u64().unwrap_or(0),
@@ -137,7 +146,8 @@ impl Arena {
     /// `declared`: the op's own tmp_bytes answer; `generous`: size used in Generous mode.
     pub fn new(w: &Window, declared: usize, generous: usize) -> Arena {
         let (mis, len) = match &w.mode {
-            WindowMode::Exact => (0, declared),
+            WindowMode::Exact | WindowMode::ExactTwice => (0, declared),
+            WindowMode::GenerousTwice => (0, generous),
             WindowMode::ExactMisaligned(k) => (*k, declared + (64 - *k % 64) % 64),
             WindowMode::Generous => (0, generous),
             WindowMode::Short(k) => (0, declared.saturating_sub(*k)),
